@@ -1183,6 +1183,158 @@ def check_session(ctx, impl, seed, variant, bufsize=4096):
     return None
 
 
+
+def _adb_msg(cmd, a0, a1, data=b""):
+    c = struct.unpack("<I", cmd)[0]
+    return struct.pack("<6I", c, a0, a1, len(data), sum(data) & 0xFFFFFFFF, c ^ 0xFFFFFFFF) + data
+
+
+class TrickleServer(object):
+    """A device that answers CNXN and OPEN at once and then lets ONE WRTE packet trickle in: `step` bytes every `gap` seconds (C11's
+    'bytes trickling too slowly'): each fragment arrives well inside the transport timeout, the packet as a whole not inside read_timeout_s."""
+
+    def __init__(self, payload_len, step, gap):
+        self.payload_len, self.step, self.gap = payload_len, step, gap
+        self.error = None
+        self.stop = False
+        self.lsock = socket.socket(socket.AF_INET, socket.SOCK_STREAM)
+        self.lsock.setsockopt(socket.SOL_SOCKET, socket.SO_REUSEADDR, 1)
+        self.lsock.bind(("127.0.0.1", 0))
+        self.lsock.listen(1)
+        self.lsock.settimeout(10.0)
+        self.port = self.lsock.getsockname()[1]
+        self.thread = threading.Thread(target=self._main, name="c18-trickle", daemon=True)
+        self.thread.start()
+
+    def _read_msg(self, conn):
+        buf = b""
+        while len(buf) < 24:
+            d = conn.recv(24 - len(buf))
+            if not d:
+                return None
+            buf += d
+        cmd, a0, a1, ln, _, _ = struct.unpack("<6I", buf)
+        data = b""
+        while len(data) < ln:
+            d = conn.recv(ln - len(data))
+            if not d:
+                return None
+            data += d
+        return struct.pack("<I", cmd), a0, a1, data
+
+    def _main(self):
+        try:
+            conn, _ = self.lsock.accept()
+        except Exception as exc:  # noqa
+            self.error = exc
+            return
+        try:
+            conn.settimeout(10.0)
+            conn.setsockopt(socket.IPPROTO_TCP, socket.TCP_NODELAY, 1)
+            m = self._read_msg(conn)
+            if m is None or m[0] != b"CNXN":
+                return
+            conn.sendall(_adb_msg(b"CNXN", 0x01000000, 4096, b"device::trickle\0"))
+            m = self._read_msg(conn)
+            if m is None or m[0] != b"OPEN":
+                return
+            local = m[1]
+            conn.sendall(_adb_msg(b"OKAY", 77, local))
+            raw = _adb_msg(b"WRTE", 77, local, bytes((i * 7) & 0xFF for i in range(self.payload_len)))
+            i = 0
+            while i < len(raw) and not self.stop:
+                conn.sendall(raw[i:i + self.step])
+                i += self.step
+                time.sleep(self.gap)
+            if not self.stop:
+                # a host that (wrongly) waited for the whole packet gets a regular end of stream
+                conn.sendall(_adb_msg(b"CLSE", 77, local))
+                conn.settimeout(3.0)
+                while conn.recv(4096):
+                    pass
+        except Exception as exc:  # noqa  (the host gives up and closes: expected)
+            if not isinstance(exc, (BrokenPipeError, ConnectionResetError, socket.timeout, OSError)):
+                self.error = exc
+        finally:
+            try:
+                conn.close()
+            except Exception:  # noqa
+                pass
+            self.lsock.close()
+
+
+def check_trickle_session(ctx, impl, tt=0.2, rt=0.5, payload_len=120, step=1, gap=0.05):
+    """C11 on a REAL socket, through the real TcpTransport / TcpTransportAsync: a stream operation whose packet trickles in more slowly than
+    read_timeout_s allows must fail with a timeout kind within the bound proved for the model (R + 2(R + max(D, tau)) per wait, one wait for
+    the OPEN's OKAY having succeeded), and must not return the data."""
+    import adb_shell.adb_device as sync_mod
+    import adb_shell.adb_device_async as async_mod
+    from adb_shell import exceptions
+    rep = ctx.report
+    sync_mod.time = time
+    async_mod.time = time
+    server = TrickleServer(payload_len, step, gap)
+    total_trickle = (24 + payload_len) / float(step) * gap
+    bound = rt + 2 * (rt + tt) + LATE_SLACK
+    t0 = time.monotonic()
+    res = None
+    try:
+        if impl == "sync":
+            dev = sync_mod.AdbDeviceTcp("127.0.0.1", server.port, default_transport_timeout_s=2.0)
+            dev.connect(auth_timeout_s=2.0, read_timeout_s=2.0)
+            t0 = time.monotonic()
+            try:
+                res = ("ok", dev.shell("x", transport_timeout_s=tt, read_timeout_s=rt, decode=False))
+            except BaseException as exc:  # noqa
+                res = ("err", exc)
+            el = time.monotonic() - t0
+            try:
+                dev.close()
+            except Exception:  # noqa
+                pass
+        else:
+            async def go():
+                dev = async_mod.AdbDeviceTcpAsync("127.0.0.1", server.port, default_transport_timeout_s=2.0)
+                await dev.connect(auth_timeout_s=2.0, read_timeout_s=2.0)
+                t1 = time.monotonic()
+                try:
+                    r = ("ok", await dev.shell("x", transport_timeout_s=tt, read_timeout_s=rt, decode=False))
+                except BaseException as exc:  # noqa
+                    r = ("err", exc)
+                e = time.monotonic() - t1
+                try:
+                    await dev.close()
+                except Exception:  # noqa
+                    pass
+                return r, e
+            loop = asyncio.new_event_loop()
+            try:
+                res, el = loop.run_until_complete(asyncio.wait_for(go(), 60))
+            finally:
+                loop.close()
+    except BaseException as exc:  # noqa
+        res, el = ("err-setup", exc), time.monotonic() - t0
+    server.stop = True
+    server.thread.join(5)
+    rep.evaluations += 1
+    rep.count("trickle_session", "%s %s" % (impl, res[0] if res[0] != "err" else type(res[1]).__name__))
+    case = dict(test="trickle", impl=impl, tt=tt, rt=rt, payload_len=payload_len, step=step, gap=gap)
+    if res[0] == "err-setup":
+        return dict(case=case, why="trickle session over loopback: connect failed: %r" % (res[1],), kinds=["infra"], signature=SIG)
+    timeout_kinds = (exceptions.AdbTimeoutError, exceptions.TcpTimeoutException)
+    if res[0] == "ok":
+        return dict(case=case, why="%s shell returned %d bytes after %.2f s although its packet trickled in over %.1f s (read_timeout_s=%.2f, transport_timeout_s=%.2f): "
+                    "no timeout was raised" % (impl, len(res[1]), el, total_trickle, rt, tt), kinds=["no-timeout"], signature=SIG)
+    if not isinstance(res[1], timeout_kinds):
+        return dict(case=case, why="%s shell on a trickling device raised %s, not a timeout kind" % (impl, type(res[1]).__name__), kinds=["wrong-exception"], signature=SIG)
+    if el > bound:
+        return dict(case=case, why="%s shell on a trickling device gave up after %.2f s; the bound for one wait is %.2f s (read_timeout_s=%.2f, transport_timeout_s=%.2f)" % (
+            impl, el, bound, rt, tt), kinds=["late"], signature=SIG)
+    rep.signatures.add(("trickle", impl))
+    rep.sample("%s shell over loopback, packet trickling 1 byte / %.0f ms: %s after %.2f s (bound %.2f s)" % (impl, gap * 1000, type(res[1]).__name__, el, bound))
+    return None
+
+
 # ---------------------------------------------------------------------------------------------------------------------
 # unit interface
 # ---------------------------------------------------------------------------------------------------------------------
@@ -1216,6 +1368,7 @@ def run(ctx):
         note(check_reset(ctx, kind))
         note(check_poll(ctx, kind))
         note(check_write(ctx, kind, 1 << 20 if quick else 5 << 20))
+        note(check_trickle_session(ctx, kind))
     observe_async_write_timeout(ctx)
     nsess = 2 if quick else 6
     for v in range(nsess):
@@ -1260,6 +1413,8 @@ def replay(ctx, payload):
         f = check_write(ctx, case["transport"], case.get("size", 1 << 20), case.get("bufsize", 8192))
     elif test == "session":
         f = check_session(ctx, case["impl"], case["seed"], case["variant"])
+    elif test == "trickle":
+        f = check_trickle_session(ctx, case["impl"], case["tt"], case["rt"], case["payload_len"], case["step"], case["gap"])
     else:
         print("unknown case %r" % (case,))
         return True
